@@ -24,7 +24,7 @@ func init() {
 		Explain: "Decides on every path of offset_manager.go: the pending position is written only by MarkOffset under offset > pom.offset and by ResetOffset under offset <= pom.offset, each time with metadata and dirty = true (C06.monotone); dirty is cleared only when position and metadata still equal what was committed (C06.keep-dirty); a commit carries pom.offset/pom.metadata of dirty partitions read under the partition lock and the response is matched against the request's own block (C06.commit-what-was-marked); the request identifies the group, member and generation of this manager (C06.identity); " +
 			"Close stops the loop, marks the partitions closed, then flushes in a loop bounded by Offsets.Retry.Max before the forced release (C06.close); NextOffset returns the position if ≥ 0 else the configured initial one (C06.next); only an ErrNoError answer can clear dirty and missing blocks are reported (C06.errors); pom/om state is accessed under its lock (C06.lock, lockset analysis). " +
 			"NOT covered: that a later commit is actually issued (ticker/liveness), coordinator fault classes beyond their code paths.",
-		Rules: []func(*Ctx){c06Monotone, c06KeepDirty, c06Commit, c06Identity, c06Close, c06Remaining, c06Next, c06Errors, c06Lock, c06Version},
+		Rules: []func(*Ctx){c06Monotone, c06KeepDirty, c06Commit, c06Identity, c06Close, c06Remaining, c06Next, c06Errors, c06Lock, c06Version, c06ErrLost, c06Recover},
 	})
 }
 
@@ -480,4 +480,54 @@ func firstInstrOf(b *ssa.BasicBlock) ssa.Instruction {
 		return nil
 	}
 	return b.Instrs[0]
+}
+
+// C06.recover: a commit that failed at the connection level makes the next attempt look the coordinator up again.
+func c06Recover(c *Ctx) {
+	p := c.P
+	rule := "C06.recover"
+	c.Doc(rule, "offsetManager.flushToBroker: on every path on which Broker.CommitOffset returned an error, the cached coordinator is released (om.releaseCoordinator(broker), for the broker the commit was sent to) before the function returns — whatever the error is: the broker object is shared with the client and the consumer group, which close it on their own errors, and only a released coordinator is looked up (and re-opened) again; otherwise every later commit, the final ones of Close included, fails locally and the marks are never stored")
+	c.Floor(rule, 1)
+	fn := c.NeedFn(rule, "offsetManager.flushToBroker")
+	if fn == nil {
+		return
+	}
+	reg := WholeFn(fn)
+	commits := reg.Find(p.CallTo("Broker.CommitOffset"))
+	if len(commits) == 0 {
+		c.Unresolved(rule, "Broker.CommitOffset in flushToBroker")
+	}
+	for _, s := range commits {
+		cl, ok := s.In.(*ssa.Call)
+		if !ok {
+			continue
+		}
+		var errV ssa.Value
+		for _, r := range *cl.Referrers() {
+			if ex, ok := r.(*ssa.Extract); ok && ex.Index == 1 {
+				errV = ex
+			}
+		}
+		if errV == nil {
+			c.Fail(rule, fn, "release-on-commit-error", cl, "the error of CommitOffset is not looked at", nil)
+			continue
+		}
+		broker := cl.Call.Args[0]
+		release := func(it Item) bool {
+			cc, ok := callCommon(it)
+			return ok && p.CalleeName(cc) == "offsetManager.releaseCoordinator" && len(cc.Args) == 2 && sameValue(cc.Args[1], broker)
+		}
+		bad := false
+		var wpath []*ssa.BasicBlock
+		edges := reg.EstablishingEdges(Cmp{token.NEQ, Same(errV), IsNil()})
+		if len(edges) == 0 {
+			bad = true
+		}
+		for _, e := range edges {
+			if esc, path := reg.From(Pt{e.To, 0}).Escape(release); esc {
+				bad, wpath = true, path
+			}
+		}
+		c.Check(!bad, rule, fn, "release-on-commit-error", cl, "a failed CommitOffset releases the cached coordinator on every path", "after a failed CommitOffset the cached coordinator can be kept (for some errors): if the shared broker object was closed by the consumer group or the client, every later commit fails with the same local error without the coordinator ever being looked up again — marks made afterwards are never committed, not even by Close", wpath)
+	}
 }
